@@ -374,6 +374,9 @@ class SymmetryTranslator:
                 else:
                     for t in [stm.weight, stm.priority, *stm.terms]:
                         global_vars.update(collect_ast(t, "Variable"))
+                # the variables of the element's tuple are used outside of the condition
+                for t in elem.terms:
+                    global_vars.update(collect_ast(t, "Variable"))
                 for symmetry_bundle in list(
                     self.largest_symmetric_group(condition, global_vars, list(elem.terms) + list(stm.body), True)
                 ):
